@@ -401,6 +401,28 @@ def r_minimize_terms(ck: Checker) -> None:
     for c in attr_calls(func, "update"):
         kws |= {kw.arg for kw in c.keywords}
     ck.add("the rebuilt objective gets weight, priority, terms and the new body equalities", kws >= {"weight", "priority", "terms", "body"}, func, func.node, f"update keywords {sorted(k for k in kws if k)}", "")
+    # every equality that exline_term hands back ends up in the body of the statement that is returned
+    from .util import block_of
+    for c in calls:
+        stmt_ = enclosing_stmt(func, c)
+        tgt = stmt_.targets[0] if isinstance(stmt_, ast.Assign) else None  # type: ignore[attr-defined]
+        ck.need(isinstance(tgt, ast.Tuple) and len(tgt.elts) == 2 and isinstance(tgt.elts[1], ast.Name), "exline_term's result is unpacked into (term, equalities)")
+        conds = tgt.elts[1].id  # type: ignore[union-attr]
+        lp = enclosing_loop(func, c)
+        carrier = conds
+        ok_c = True
+        if lp is not None:
+            feeds = [x for x in attr_calls(func, "extend") if enclosing_loop(func, x) is lp and len(x.args) == 1 and unparse(x.args[0]) == conds and isinstance(x.func.value, ast.Name)]  # type: ignore[attr-defined]
+            ok_c = len(feeds) == 1 and every_iteration_reaches(ck, func, lp, feeds[0], None)[0]
+            carrier = feeds[0].func.value.id if feeds else conds  # type: ignore[attr-defined]
+            after = [s for s in (block_of(func, lp) or []) if s.lineno > lp.lineno]
+        else:
+            blk = block_of(func, stmt_) or []
+            after = [s for s in blk if s.lineno > stmt_.lineno][:1]
+        ups = [u for s in after for u in ast.walk(s) if isinstance(u, ast.Call) and isinstance(u.func, ast.Attribute) and u.func.attr == "update" and kwarg(u, "body") is not None]
+        ok_b = bool(ups) and any(carrier in {n.id for n in ast.walk(kwarg(u, "body")) if isinstance(n, ast.Name)} for u in ups[:1])  # type: ignore[arg-type]
+        ck.add(f"the equalities for `{short(unparse(c.args[0]), 30)}` are added to the objective's body", ok_c and ok_b, func, c, f"`{conds}` -> `{carrier}` in `{short(unparse(ups[0]), 80) if ups else None}`: {ok_c and ok_b}",
+               "an ex-lined term without its `AUX = term` equality leaves AUX unbound: the weak constraint is unsafe (or, for a tuple term, all tuples collapse)")
 
 
 # ------------------------------------------------------------------------------------------------ C01
@@ -482,7 +504,7 @@ RULES = [
     Rule("C06.who-constructs", ("C06", "C01"), r_who_constructs),
     Rule("C06.heads-kept", ("C06", "C01"), r_heads_kept),
     Rule("C02.TABLE.unify", ("C02", "C13", "C12", "C15", "C01"), r_unify_table),
-    Rule("C02.minimize-terms", ("C02", "C05", "C01"), r_minimize_terms),
+    Rule("C02.minimize-terms", ("C02", "C05", "C01", "C04"), r_minimize_terms),
     Rule("C01.api-interface", ("C01",), r_api_interface),
 ] + [Rule(f"C01.api.{cname}", ("C01", prop) + (("C07",) if cname == "UnusedTranslator" else ()), _api_pass(cname),
          extra={"C03": ("(prg=...)",), **({"C20": ("(prg=...)",)} if cname in DOMAIN_USERS else {})}) for cname, prop in PASS_PROPS.items()]
